@@ -613,6 +613,91 @@ def side_user_calls(is_requestor: bool, ops: List[int], seq: List[int]) -> bool:
         assoc_mod.time = saved
 
 
+class _WakeGate:
+    """`_reactor_checkpoint` stand-in for a PARKED reactor (the user abandoned a response iterator, or a send_* call
+    is in progress): `set()` wakes the reactor and the woken reactor thread is scheduled right there - it runs the
+    real `_run_reactor` loop body until it parks again in `wait()` or leaves the loop.  This is the pre-emption
+    point that matters for calls that wake the reactor before they have finished their own bookkeeping."""
+
+    class Park(Exception):
+        pass
+
+    def __init__(self, assoc):
+        self.assoc, self.flag, self.in_reactor, self.ran, self.waits = assoc, False, False, 0, 0
+
+    def clear(self):
+        self.flag = False
+
+    def is_set(self):
+        return self.flag
+
+    def wait(self, *a):
+        self.waits += 1
+        if self.waits > 1:
+            raise _WakeGate.Park()      # back at the top of the loop: parked again (nothing else wakes it here)
+
+    def set(self):
+        self.flag = True
+        if self.in_reactor or self.ran or self.assoc._kill:
+            return
+        self.in_reactor, self.ran = True, 1
+        try:
+            self.assoc._run_reactor()
+        except _WakeGate.Park:
+            pass
+        finally:
+            self.in_reactor = False
+
+
+@harness(
+    "C06",
+    timeout=(60, 300),
+    functions=["association:Association.abort", "association:Association._abort_blocking",
+               "association:Association._abort_nonblocking", "association:Association.release",
+               "association:Association._run_reactor", "association:Association.kill"],
+    bounds="role; one user call (abort, abort(block=False), release) on an association whose reactor is parked at its "
+           "checkpoint; when the call wakes the reactor, the reactor thread runs at once (one pass of the real loop) and may "
+           "find the network idle timer expired and/or the provider thread dead (symbolic bools)",
+    stubs=["assoc.dul is a ScriptDUL; _reactor_checkpoint is a wake gate that runs the real _run_reactor loop body at the "
+           "moment set() is called; time.sleep no-op"],
+    outside="pre-emption at other points of the user call (co-simulation above)",
+)
+def user_call_wakes_reactor(is_requestor: bool, op: int, idle_expired: bool, provider_dead: bool, seq: List[int]) -> bool:
+    """
+    pre: 0 <= op <= 2
+    pre: len(seq) <= 1 and all(0 <= x <= 4 for x in seq)
+    post: _ == True
+    """
+    req = True if is_requestor else False
+    with untraced():
+        assoc, dul, log = _make_side(req)
+        assoc._is_paused = True
+        gate = _WakeGate(assoc)
+        assoc._reactor_checkpoint = gate
+    dul.idle_expired = True if idle_expired else False
+    dul.alive = False if provider_dead else True
+    dul.script = list(seq)
+    saved = assoc_mod.time
+    assoc_mod.time = _NoSleep()
+    try:
+        if op == 0:
+            assoc.abort()
+        elif op == 1:
+            assoc.abort(block=False)
+        else:
+            assoc.release()
+        sent = _kinds(dul.sent)
+        n_abort = len([k for k in sent if k == ABORT])
+        # one terminal outcome, announced once, and at most one A-ABORT handed to the provider
+        ok = n_abort <= 1 and len(log) <= 1 and not assoc.is_established
+        ok = ok and not (assoc.is_released and assoc.is_aborted)
+        if op != 2:
+            ok = ok and assoc.is_aborted and log == ["EVT_ABORTED"]
+        return ok
+    finally:
+        assoc_mod.time = saved
+
+
 def kf_user_calls(is_requestor, ops, seq):
     """`match` helper of the known-finding entry (concrete replay)."""
     outcome = None
